@@ -81,7 +81,7 @@ BerV(env, T, v, impl, st, depth) ==
          IN IF T.mode = "E" THEN Wrap(st, tg, TRUE, BerV(env, T.t, v, NoTag, st, depth + 1), depth)
             ELSE BerV(env, T.t, v, tg, st, depth)
     [] IsRef(T) -> BerV(env, Follow(env, T), v, impl, st, depth)
-    [] T.k = "CHOICE" -> BerV(env, CompByName(T, AltOf(v)).t, AltVal(v), NoTag, st, depth)
+    [] ChoiceLike(T.k) -> BerV(env, CompByName(T, AltOf(v)).t, AltVal(v), NoTag, st, depth)
     [] T.k = "SEQUENCE" ->
          Wrap(st, TagOr(impl, T), TRUE,
               ConcatAll(CompEncsV(env, T, v, st, depth + 1)) \o (IF T.ext THEN UnknownExt(st, depth + 1) ELSE <<>>), depth)
